@@ -217,7 +217,7 @@ INSERTS = {
 }
 LINE_MODS = ("alias", "crlf", "trail", "cut54", "cut60", "cut66", "cut78",
              "alt_after", "alt_end", "alt_cd", "alt_only_b", "hetflip",
-             "serial5")
+             "serial5", "wide")
 RES_MODS = ("neg", "big", "icode", "icode_split", "icode_collide")
 
 
@@ -361,6 +361,12 @@ def apply_program(lines, program):
                        and (lines[j + 1][21], lines[j + 1][22:27]) == key):
                     j += 1
                 at_res_end.setdefault(j, []).append(second)
+        elif what == "wide":
+            # coordinates that fill their eight columns (sign or leading
+            # digit in the first column of the field, fields touching)
+            lines[pos] = (l[:30] + f"{-123.456 - pos:8.3f}"
+                          + f"{1234.567 + pos:8.3f}" + f"{-999.999:8.3f}"
+                          + l[54:])
         elif what == "serial5":
             # five-digit serial: the serial abuts the record name (HETATM10007)
             lines[pos] = l[:6] + f"{10000 + pos:>5}" + l[11:]
